@@ -2,7 +2,6 @@ package verifchecks
 
 import (
 	"reflect"
-	"sort"
 	"testing"
 
 	"pgregory.net/rapid"
@@ -13,6 +12,9 @@ import (
 )
 
 var mgmtPool = []string{"a", "b", "c", "d"}
+
+// names of proxy / virtual datasets (catalogue only, never part of a data operation)
+var specialPool = []string{"px", "vx"}
 
 // mgmtActions are the dataset-management actions shared by C07, C19 and C14.
 func (g *gm) mgmtActions(withGC, withRestart bool) map[string]func(*rapid.T) {
@@ -48,6 +50,32 @@ func (g *gm) mgmtActions(withGC, withRestart bool) map[string]func(*rapid.T) {
 				t.Skip("all names live")
 			}
 			g.applyCreate(Op{K: "create", Name: rapid.SampledFrom(nl).Draw(t, "name"), Via: via(t)})
+		},
+		"createSpecial": func(t *rapid.T) {
+			g.t = t
+			var nl []string
+			for _, n := range specialPool {
+				if g.m.DS[n] == nil {
+					nl = append(nl, n)
+				}
+			}
+			if len(nl) == 0 {
+				t.Skip("all special names live")
+			}
+			g.applyCreate(Op{K: "create", Name: rapid.SampledFrom(nl).Draw(t, "name"), Via: via(t), Kind: rapid.SampledFrom([]string{"proxy", "virtual"}).Draw(t, "kind")})
+		},
+		"deleteSpecial": func(t *rapid.T) {
+			g.t = t
+			var l []string
+			for _, n := range specialPool {
+				if g.m.DS[n] != nil {
+					l = append(l, n)
+				}
+			}
+			if len(l) == 0 {
+				t.Skip("no special dataset")
+			}
+			g.applyDelete(Op{K: "delete", Name: rapid.SampledFrom(l).Draw(t, "name"), Via: via(t)})
 		},
 		"delete": func(t *rapid.T) {
 			g.t = t
@@ -105,17 +133,37 @@ func (g *gm) mgmtActions(withGC, withRestart bool) map[string]func(*rapid.T) {
 // checkDatasetList: the dataset list equals the model's live names.
 func (g *gm) checkDatasetList() {
 	got := g.h.DatasetNames()
-	want := g.live()
-	sort.Strings(want)
+	want := g.m.AllNames()
 	if len(got) == 0 && len(want) == 0 {
 		return
 	}
 	if !reflect.DeepEqual(got, want) {
 		g.fail("DATASET-LIST impl=%v model=%v", got, want)
 	}
-	for _, n := range mgmtPool {
+	for _, n := range append(append([]string{}, mgmtPool...), specialPool...) {
 		if g.m.DS[n] == nil && g.h.Dsm.IsDataset(n) {
 			g.fail("DATASET-GHOST %s is reported as a dataset but was deleted/renamed away", n)
+		}
+	}
+	g.checkKinds()
+}
+
+// checkKinds: a dataset is a proxy / virtual dataset iff it was created as one, with the
+// settings it was created with.
+func (g *gm) checkKinds() {
+	for _, n := range g.m.AllNames() {
+		md, d := g.m.DS[n], g.h.Dsm.GetDataset(n)
+		if d == nil {
+			g.fail("DATASET-LIST %s is listed but GetDataset does not know it", n)
+		}
+		if d.IsProxy() != md.Proxy || d.IsVirtual() != md.Virtual {
+			g.fail("DATASET-KIND %s was created with proxy=%v virtual=%v, the hub now says proxy=%v virtual=%v", n, md.Proxy, md.Virtual, d.IsProxy(), d.IsVirtual())
+		}
+		if md.Proxy && (d.ProxyConfig.RemoteURL != gmProxyURL || d.ProxyConfig.TimeoutSeconds != 1) {
+			g.fail("DATASET-KIND proxy dataset %s: settings %+v differ from what it was created with", n, *d.ProxyConfig)
+		}
+		if md.Virtual && d.VirtualDatasetConfig.Transform != gmVirtualJS {
+			g.fail("DATASET-KIND virtual dataset %s: transform differs from what it was created with", n)
 		}
 	}
 }
